@@ -81,9 +81,16 @@ package mbapp
 //@   noframe
 //@   fnspec Deadline:
 //@     pure
+//@   ghostvar m = 0 - 1
+//@   ghostvar sending = false
 //@   ensures old(sumlen(lens(msg), len(msg)) > s.mtu) ==> ret != nil
+//@   ensures [refuses] old(sumlen(lens(msg), len(msg))) > ghost(m) ==> ret != nil && !ghost(sending)
+//@   ensures [accepts] old(sumlen(lens(msg), len(msg))) <= ghost(m) ==> ghost(sending)
+//@   after call (*Swarm).MTU:
+//@     set m = res0
 //@   before call (*Swarm).send:
 //@     assert sumlen(lens(arg3.m), len(arg3.m)) <= s.mtu && arg3.m == msg && !arg3.isAsk && !arg3.isReply
+//@     set sending = true
 //@
 //@ func (*Swarm).Ask
 //@   noframe
@@ -91,9 +98,16 @@ package mbapp
 //@     pure
 //@   fnspec String:
 //@     pure
+//@   ghostvar m = 0 - 1
+//@   ghostvar sending = false
 //@   ensures old(sumlen(lens(req), len(req)) > s.mtu) ==> ret1 != nil
+//@   ensures [refuses] old(sumlen(lens(req), len(req))) > ghost(m) ==> ret1 != nil && !ghost(sending)
+//@   ensures [accepts] old(sumlen(lens(req), len(req))) <= ghost(m) ==> ghost(sending)
+//@   after call (*Swarm).MTU:
+//@     set m = res0
 //@   before call (*Swarm).send:
 //@     assert sumlen(lens(arg3.m), len(arg3.m)) <= s.mtu && arg3.m == req && arg3.isAsk && !arg3.isReply
+//@     set sending = true
 //@
 //@ func (*Swarm).send
 //@   noframe
